@@ -24,8 +24,8 @@ type AV struct {
 }
 
 func avConst(c constant.Value) AV { return AV{Kind: "const", C: c} }
-func avBool(b bool) AV           { return AV{Kind: "const", C: constant.MakeBool(b)} }
-func avInt(i int64) AV           { return AV{Kind: "const", C: constant.MakeInt64(i)} }
+func avBool(b bool) AV            { return AV{Kind: "const", C: constant.MakeBool(b)} }
+func avInt(i int64) AV            { return AV{Kind: "const", C: constant.MakeInt64(i)} }
 
 func (a AV) String() string {
 	switch a.Kind {
@@ -53,6 +53,7 @@ type decideRun struct {
 	err    string
 	// calls: invoked for call instructions executed on the path (for effect tracing)
 	onCall func(call ssa.CallInstruction)
+	trace  []ssa.Instruction
 }
 
 func (r *decideRun) fail(format string, args ...any) AV {
@@ -251,6 +252,7 @@ func (r *decideRun) run() ([]AV, string) {
 				r.eval(phi)
 			}
 		}
+		r.trace = append(r.trace, r.cur.Instrs...)
 		if r.onCall != nil {
 			for _, in := range r.cur.Instrs {
 				if ci, ok := in.(ssa.CallInstruction); ok {
@@ -293,4 +295,11 @@ func (r *decideRun) run() ([]AV, string) {
 		}
 	}
 	return nil, "step bound exceeded (loop?)"
+}
+
+// DecideTrace is Decide plus the executed instruction sequence and an evaluator for values on it.
+func DecideTrace(fn *ssa.Function, oracle Oracle) (res []AV, trace []ssa.Instruction, eval func(ssa.Value) AV, err string) {
+	r := &decideRun{fn: fn, oracle: oracle, memo: map[ssa.Value]AV{}}
+	res, err = r.run()
+	return res, r.trace, func(v ssa.Value) AV { saved := r.err; a := r.eval(v); r.err = saved; return a }, err
 }
